@@ -321,7 +321,7 @@ class Den:
     # ---- value patterns ----
     def scan(self, op, start, step, length):
         cur = val(start)
-        for s, _ in zip(self.S(step), self.tk(reps(length))):
+        for _, s in zip(self.tk(reps(length)), self.S(step)):     # at most `length` values
             nxt = op(cur, s)
             yield cur
             cur = nxt
